@@ -15,6 +15,11 @@ type c10Op struct {
 	Kind string        `json:"kind"` // register, unregister, cancel, auto-on, auto-off, disconnect, shutdown, hide, show, peer-register, peer-unregister
 	T    int           `json:"t"`    // target index 0/1
 	Gap  time.Duration `json:"gap"`
+	// AtDial: the operation is issued DelayUs microseconds after the target's hub accepted the websocket of
+	// D's next outbound dial, i.e. while D's side of that dial is being turned into a registered connection;
+	// without a dial within 5 s it is issued anyway
+	AtDial  bool `json:"at_dial,omitempty"`
+	DelayUs int  `json:"delay_us,omitempty"`
 }
 
 type C10Scn struct {
@@ -28,18 +33,25 @@ func genC10(r *vc.Rand) *C10Scn {
 	sc := &C10Scn{}
 	// a quarter of the scripts starts with a directed prefix around a pending pairing: the remote
 	// side accepts (or the own side re-registers) only after the local user changed his mind
-	if r.Chance(1, 4) {
+	if r.Chance(1, 2) {
 		t := r.Intn(2)
 		ms := func(n int) time.Duration { return time.Duration(n) * time.Millisecond }
-		switch r.Intn(4) {
+		switch r.Intn(7) {
+		case 4, 5, 6: // the user changes his mind (or shuts down) exactly while the dial is being established
+			kind := vc.Pick(r, []string{"unregister", "unregister", "cancel", "shutdown"})
+			sc.Ops = append(sc.Ops, c10Op{Kind: "peer-register", T: t, Gap: ms(200)}, c10Op{Kind: "register", T: t},
+				c10Op{Kind: kind, T: t, Gap: ms(2500), AtDial: true, DelayUs: vc.Pick(r, []int{0, 0, 20, 50, 100, 150, 200, 300, 400, 600, 1000, 2000})})
+			if kind == "shutdown" {
+				return sc
+			}
 		case 0: // D asks, remote undecided, D cancels, remote accepts later
-			sc.Ops = append(sc.Ops, c10Op{"register", t, ms(700)}, c10Op{"cancel", t, ms(300)}, c10Op{"peer-register", t, ms(2500)})
+			sc.Ops = append(sc.Ops, c10Op{Kind: "register", T: t, Gap: ms(700)}, c10Op{Kind: "cancel", T: t, Gap: ms(300)}, c10Op{Kind: "peer-register", T: t, Gap: ms(2500)})
 		case 1:
-			sc.Ops = append(sc.Ops, c10Op{"register", t, ms(700)}, c10Op{"unregister", t, ms(300)}, c10Op{"peer-register", t, ms(2500)})
+			sc.Ops = append(sc.Ops, c10Op{Kind: "register", T: t, Gap: ms(700)}, c10Op{Kind: "unregister", T: t, Gap: ms(300)}, c10Op{Kind: "peer-register", T: t, Gap: ms(2500)})
 		case 2: // remote asks, D undecided (pending), D cancels, remote keeps trying
-			sc.Ops = append(sc.Ops, c10Op{"peer-register", t, ms(700)}, c10Op{"cancel", t, ms(1600)})
+			sc.Ops = append(sc.Ops, c10Op{Kind: "peer-register", T: t, Gap: ms(700)}, c10Op{Kind: "cancel", T: t, Gap: ms(1600)})
 		case 3: // remote asks, D accepts, D unregisters, remote still registered
-			sc.Ops = append(sc.Ops, c10Op{"peer-register", t, ms(700)}, c10Op{"register", t, ms(700)}, c10Op{"unregister", t, ms(2500)})
+			sc.Ops = append(sc.Ops, c10Op{Kind: "peer-register", T: t, Gap: ms(700)}, c10Op{Kind: "register", T: t, Gap: ms(700)}, c10Op{Kind: "unregister", T: t, Gap: ms(2500)})
 		}
 	}
 	n := r.Range(3, 12)
@@ -120,6 +132,27 @@ func runC10(sc *C10Scn) (res c10Result) {
 	time.Sleep(100 * time.Millisecond)
 	for _, op := range sc.Ops {
 		t := ts[op.T]
+		if op.AtDial {
+			// wait for D's next outbound TCP connection, then for the moment the target's hub has accepted the
+			// websocket (its registry holds a connection for D): D's dial returns from the upgrade right then
+			// and goes through keep-this-connection / handler creation / registration within microseconds
+			px := nw.Proxy(d, t)
+			n0 := px.Accepts.Load()
+			deadline := time.Now().Add(5 * time.Second)
+			for px.Accepts.Load() == n0 && time.Now().Before(deadline) {
+				time.Sleep(100 * time.Microsecond)
+			}
+			if px.Accepts.Load() != n0 {
+				for time.Now().Before(deadline) {
+					if _, ok := t.H().VerifRegistry()[d.SKI]; ok {
+						break
+					}
+					time.Sleep(20 * time.Microsecond)
+				}
+				nw.L.Add("H", "at-dial", t.SKI, "", op.DelayUs)
+			}
+			time.Sleep(time.Duration(op.DelayUs) * time.Microsecond)
+		}
 		switch op.Kind {
 		case "register":
 			d.Register(t.SKI)
@@ -172,6 +205,12 @@ func evalC10(col *vc.Collector, sc *C10Scn, res c10Result) {
 	var kinds []string
 	for i := 0; i+1 < len(sc.Ops); i++ {
 		kinds = append(kinds, sc.Ops[i].Kind+">"+sc.Ops[i+1].Kind)
+	}
+	for _, e := range res.Evs {
+		if e.Who == "H" && e.Kind == "at-dial" {
+			col.Count(prop, "operations-issued-while-a-dial-is-established", 1)
+			col.Class(prop, fmt.Sprintf("at-dial:+%dus", e.N))
+		}
 	}
 	for _, k := range kinds {
 		col.Class(prop, "op-pair:"+k)
